@@ -11,7 +11,7 @@ ID = 'C01'
 RULE = ('base molecules = corpus sample + curated feature molecules + ring assemblies, partly decorated through the '
         'editing API (groups, counter ions, isotopes) and stereo label variants, + 414 constitutionally symmetric dimers / trimers '
         'with every (also partial) label combination + 1311 mixtures of regular rings, chains and ions; per base molecule D descriptions: '
-        're-description transformer (new sparse/colliding numbers, shuffled atom+bond insertion, stereo re-attached), '
+        're-description transformer (new sparse/colliding numbers, shuffled atom+bond insertion, stereo re-attached) of the normal form and of a Kekule form, '
         "the library's random-order writer in styles r/ra/rA/rh re-read, and RDKit random kekule spellings re-read; "
         'oracle: str/==/hash equal across descriptions after kekule();thiele(); a case is non-trivial and distinct by '
         '(one of smiles_atoms_order / atoms_order / get_fast_mapping / hash read on the description before its string in 4 of 6 comparisons); a case is non-trivial and distinct by '
@@ -25,12 +25,12 @@ CONFIG = {
     'quick': {'shards': 16, 'budget_s': 300, 'n_corpus': 1100, 'n_ring': 160, 'k_redescr': 3, 'k_writer': 3, 'k_rdkit': 2,
               'floors': {'evaluations': 4000, 'distinct_nontrivial': 600, 'descr.redescribe': 1500,
                          'descr.writer': 1500, 'descr.rdkit': 500, 'small.graphs': 3000, 'base.mixture': 1000,
-                         'base.symmetric-dimer': 300, 'base.partially-labelled': 100, 'preread.smiles_atoms_order': 500}, 'exhaustive_subspaces': ['labelled connected graphs <= 4 atoms (see rt/enum.py SMALL)']},
+                         'base.symmetric-dimer': 300, 'base.partially-labelled': 100, 'preread.smiles_atoms_order': 500, 'descr.redescribe-kekule-form': 400}, 'exhaustive_subspaces': ['labelled connected graphs <= 4 atoms (see rt/enum.py SMALL)']},
     'thorough': {'shards': 16, 'budget_s': 1100, 'n_corpus': 4200, 'n_ring': 10000, 'k_redescr': 20, 'k_writer': 20,
                  'k_rdkit': 12,
                  'floors': {'evaluations': 40000, 'distinct_nontrivial': 3000, 'descr.redescribe': 15000,
                             'descr.writer': 15000, 'descr.rdkit': 5000, 'small.graphs': 50000, 'base.mixture': 1000,
-                            'base.symmetric-dimer': 300, 'base.partially-labelled': 100, 'preread.smiles_atoms_order': 500}, 'exhaustive_subspaces': ['labelled connected graphs <= 5 atoms (see rt/enum.py SMALL)']},
+                            'base.symmetric-dimer': 300, 'base.partially-labelled': 100, 'preread.smiles_atoms_order': 500, 'descr.redescribe-kekule-form': 400}, 'exhaustive_subspaces': ['labelled connected graphs <= 5 atoms (see rt/enum.py SMALL)']},
 }
 WRITER_SPECS = ['r', 'ra', 'rA', 'rh', 'rAa']
 
@@ -135,6 +135,25 @@ def check_base(ctx, tag, src, m, cfg, rng):
                 else:
                     ctx.violation('atoms-order-partition-not-equivariant', '%s: %s vs %s' % (key, p1[:6], p2[:6]),
                                   {'src': src, 'smiles': key})
+    # (a') the same for a Kekule form of the molecule (renumbering alone must not change the string of any form)
+    if any(b.order == 4 for *_, b in m.bonds()) and rng.random() < cfg.get('p_kekule', .5):
+        try:
+            K = m.copy()
+            G._fix_slots(K)
+            K.kekule()
+        except Exception:
+            K = None
+        for _ in range(2 if K is not None else 0):
+            try:
+                new, mp, bad = T.redescribe(K, rng)
+            except Exception as e:
+                ctx.violation('redescribe-raised/%s' % type(e).__name__, '%s: %r' % (key, e), {'src': src, 'smiles': key})
+                break
+            if bad:
+                continue
+            ctx.evaluations += 1
+            ctx.count('descr.redescribe-kekule-form')
+            compare(ctx, 'redescribe-kekule-form', K, new, src, 'kekule=%s mapping=%s' % (K, sorted(mp.items())[:12]))
     # (b) library random writer
     for i in range(cfg['k_writer']):
         spec = WRITER_SPECS[i % len(WRITER_SPECS)]
